@@ -47,6 +47,7 @@ class Mod:
         self.records = {n: dict(r, fields=[(a, p, _tt(t)) for a, p, t in r["fields"]]) for n, r in mod.get("records", {}).items()}
         self.coercions = [(_tt(a), _tt(b), f) for a, b, f in mod.get("coercions", [])]
         self.translated = {}     # python call name -> (coq name, [param types], ret type, fuelled, generator)
+        self.selfmeths = {}      # [C07] "self_method" callees: python method name -> dict(coq, params, rtype, fuelled, mutates, defaults)
 
     def coq(self, t):
         if t == 'Z':
@@ -608,6 +609,44 @@ class Fn:
         if not isinstance(call, ast.Call):
             return None
         name = self.callname(call.func)
+        self.call_stateful = False
+        if self.spec.get("self_calls") and name and name.startswith("self.") and name[5:] in self.m.selfmeths \
+                and name[5:] != self.fdef.name:
+            # [C07] spec option "self_calls": `v = self.m(a, k=b)` of a method translated earlier WITH its self record
+            # ("self_method": true on the callee).  The caller's self is passed; omitted arguments take the callee's declared
+            # "defaults" (checked against the source when the callee was translated); if the callee mutates self, the caller's
+            # self becomes the callee's final self (the value bound is the pair (result, final self)).  Off by default.
+            info = self.m.selfmeths[name[5:]]
+            if "self" not in dict(self.params) or "self" not in da:
+                _fail(node, "self_calls without a self record")
+            given = {}
+            if len(call.args) > len(info["params"]):
+                _fail(node, "arity of %s" % name)
+            for (pn, _), a in zip(info["params"], call.args):
+                given[pn] = a
+            for k in call.keywords:
+                if k.arg is None or k.arg in given or k.arg not in dict(info["params"]):
+                    _fail(node, "keyword %s in call of %s" % (k.arg, name))
+                given[k.arg] = k.value
+            texts, conds = [], []
+            for pn, pt in info["params"]:
+                if pn in given:
+                    tx = self.ex(given[pn], da, pt)
+                    texts.append(tx[0])
+                    conds += tx[2]
+                elif pn in info["defaults"]:
+                    texts.append(info["defaults"][pn])
+                else:
+                    _fail(node, "argument %s of %s is missing and has no declared default" % (pn, name))
+            if info["fuelled"]:
+                self.uses_fuel = True
+            app = "(%s %s%s %s)" % (info["coq"], "fuel " if info["fuelled"] else "", self.get("self"), " ".join(texts))
+            if info["mutates"]:
+                self.call_stateful = True
+                txt = "(fun s => match %s with Ret _ s_ v_ => COk (v_, %s_self s_) | Fuel => CFuel | _ => CRaised end)" % (app, info["coq"])
+            else:
+                txt = "(fun s => value_of %s)" % app
+            return txt, info["rtype"], conds
         if name and name.startswith("self."):
             name = name[5:]
         if name == self.fdef.name:
@@ -658,6 +697,12 @@ class Fn:
                 _fail(s, ".append on a parameter (the caller's list would change)")
             tx = self.ex(s.value.args[0], da, t[1])
             return self.guarded(tx[2], "(assign (fun s => %s))" % self.setter(v, "(%s ++ [%s])" % (self.get(v), tx[0]))), da
+        if self.spec.get("skip_statements") and ast.unparse(s) in self.spec["skip_statements"]:
+            # [C01] spec option "skip_statements": [exact ast.unparse text]: statements that only set up opaque helper objects
+            # (a pyproj Transformer, its keyword dict) read by nothing but spec patterns; they have no effect on the translated
+            # state and are skipped WITHOUT being evaluated; the names they bind stay unassigned for the definite-assignment
+            # check (the spec's note must name them).  Off by default.
+            return "skip", da
         if isinstance(s, ast.Expr) and isinstance(s.value, ast.Call) and self.callname(s.value.func) in self.spec.get("skip_calls", []):
             # [C03] spec option "skip_calls": an expression statement calling one of these (warnings.warn, logger.debug) has no
             # effect on the translated state and is skipped WITHOUT evaluating its arguments (the spec's note must say so)
@@ -724,10 +769,18 @@ class Fn:
                 txt, rt, conds = tc
                 if rt != self.rtype:
                     _fail(s, "returned call has type %s, not %s" % (rt, self.rtype))
+                if getattr(self, "call_stateful", False):      # [C07] self_calls: the callee's final self comes back with the value
+                    st = "(andthen (call_ %s (fun x_ s => %s_set__ret (fst x_) (%s_set_self (snd x_) s))) (ret (fun s => %s)))" % (
+                        txt, self.name, self.name, self.get("_ret"))
+                    return self.guarded(conds, st), None
                 st = "(andthen (call_ %s (fun x_ s => %s)) (ret (fun s => %s)))" % (txt, self.setter("_ret", "x_"), self.get("_ret"))
                 return self.guarded(conds, st), None
             tx = self.ex(s.value, da, self.rtype)
             return self.guarded(tx[2], "(ret (fun s => %s))" % tx[0]), None
+        if isinstance(s, ast.Assign) and len(s.targets) == 1 and ast.unparse(s.targets[0]) in self.spec.get("skip_stores", []):
+            # [C07] spec option "skip_stores": an assignment to one of these targets (LOG.disabled) has no effect on the translated
+            # state and is skipped WITHOUT evaluating its right-hand side (the spec's note must say so)
+            return "skip", da
         if isinstance(s, ast.Assign):
             if len(s.targets) != 1:
                 _fail(s, "chained assignment")
@@ -747,6 +800,8 @@ class Fn:
                 if self.target_type(t0, s) != rt:
                     _fail(s, "call result of type %s stored in %s" % (rt, self.target_type(t0, s)))
                 bf, names = self.bind_fun(t0, s)
+                if getattr(self, "call_stateful", False):      # [C07] self_calls: bind the value, then take over the callee's final self
+                    bf = "(fun x_ s => %s (fst x_) (%s_set_self (snd x_) s))" % (bf, self.name)
                 return self.guarded(conds, "(call_ %s %s)" % (txt, bf)), da | names
             if isinstance(t0, ast.Name):
                 if t0.id not in self.vars:
@@ -997,6 +1052,21 @@ def translate_module(repo, modname, mod):
         except Untranslatable as e:
             raise Untranslatable("%s:%s: %s" % (spec["source"], spec["qualname"], e))
         m.translated[fdef.name] = (fn.name, [t for p, t in fn.params if p != "self"], fn.rtype, fn.fuelled, fn.is_gen)
+        if spec.get("self_method"):
+            # [C07] spec option "self_method": callable from later methods of the module as self.m(..) under their "self_calls";
+            # "defaults": {param: {"py": <source text of the default>, "coq": <term>}} must agree with the source
+            if not fn.params or fn.params[0][0] != "self" or fn.is_gen:
+                raise Untranslatable("%s:%s: self_method needs a leading self parameter and no yield" % (spec["source"], spec["qualname"]))
+            pyargs = [a.arg for a in fdef.args.args]
+            src_def = dict(zip(pyargs[len(pyargs) - len(fdef.args.defaults):], [ast.unparse(d) for d in fdef.args.defaults]))
+            defaults = {}
+            for pn, dd in spec.get("defaults", {}).items():
+                if src_def.get(pn) != dd["py"]:
+                    raise Untranslatable("%s:%s: default of %s is %r in the source, the spec declares %r"
+                                         % (spec["source"], spec["qualname"], pn, src_def.get(pn), dd["py"]))
+                defaults[pn] = dd["coq"]
+            m.selfmeths[fdef.name] = {"coq": fn.name, "params": [(p_, t_) for p_, t_ in fn.params if p_ != "self"], "rtype": fn.rtype,
+                                      "fuelled": fn.fuelled, "mutates": "self" in spec.get("mutates", []), "defaults": defaults}
         digest = hashlib.sha1(ast.dump(fdef).encode()).hexdigest()[:16]
         out.append("(* %s:%s lines %d-%d ast %s *)\n%s\n" % (spec["source"], spec["qualname"], fdef.lineno, fdef.end_lineno, digest, text))
     if mod.get("context"):
